@@ -27,7 +27,7 @@ func b2z(b bool) *big.Int {
 func runC19(seed uint64, n int, out, stats string, _ []string) {
 	c := NewCases(out)
 	var mon []MonitorFailure
-	payouts, accruals, x3pays, dropped, setChanges, switchedOff := 0, 0, 0, 0, 0, 0
+	payouts, accruals, x3pays, dropped, setChanges, switchedOff, fullUnbonds := 0, 0, 0, 0, 0, 0, 0
 	for i := 0; i < n; i++ {
 		s := seed*1000003 + uint64(i)
 		r := NewRng(s)
@@ -123,6 +123,31 @@ func runC19(seed uint64, n int, out, stats string, _ []string) {
 			if spec.ExtraCands > 0 && b == earlyEv-1-r.Intn(2) {
 				for ci := nv; ci < nv+spec.ExtraCands; ci++ {
 					txs = append(txs, nd.MkTx(nd.Accts[ci%len(nd.Accts)], transaction.TypeSetCandidateOnline, transaction.SetCandidateOnData{PubKey: nd.Vals[ci].Pub}, 0, 0, 1, nil))
+				}
+			} else if (nd.Height+1)%stakePeriod == 0 && r.Intn(2) == 0 {
+				// a delegator takes its whole stake out in the payout block itself: the stake still earned this period's share
+				var cands []int
+				for ci := range prev.Candidates {
+					for _, sk := range prev.Candidates[ci].Stakes {
+						if sk.Coin == 0 && sk.Owner != prev.Candidates[ci].OwnerAddress && bi(sk.Value).Sign() > 0 {
+							cands = append(cands, ci)
+							break
+						}
+					}
+				}
+				if len(cands) > 0 {
+					cd := prev.Candidates[cands[r.Intn(len(cands))]]
+					for _, sk := range cd.Stakes {
+						if sk.Coin == 0 && sk.Owner != cd.OwnerAddress && bi(sk.Value).Sign() > 0 {
+							for _, a := range nd.Accts {
+								if a.Addr == sk.Owner {
+									txs = append(txs, nd.MkTx(a, transaction.TypeUnbond, transaction.UnbondDataV3{PubKey: cd.PubKey, Coin: 0, Value: bi(sk.Value)}, 0, 0, 1, nil))
+									fullUnbonds++
+								}
+							}
+							break
+						}
+					}
 				}
 			} else if r.Intn(12) == 0 && len(prev.Validators) > 2 {
 				// a current validator is switched off by its owner: it is marked to-drop in this block
@@ -415,5 +440,5 @@ func runC19(seed uint64, n int, out, stats string, _ []string) {
 	writeStats(stats, &Stats{Property: "C19", Seed: seed, Cases: c.NCases, Ops: c.NOps, NonTrivial: c.NonTriv,
 		Rule: "history of 13-52 blocks on the real node (2-5 validators with 0-3 extra delegators each, stakes 1000 BIP+1 pip .. 10^26, commissions 0-100, locked (x3) accounts, absences, evidence, fee-paying txs, zero block reward in a quarter of the histories); every non-payout block's accrual and every payout block's reward events are compared with Model/Rewards.v; non-trivial = at least one payout compared; distinct = distinct case text",
 		Dist: c.Dist, Samples: c.Samples, Monitor: mon,
-		Extra: map[string]interface{}{"accrual_blocks": accruals, "validator_payouts": payouts, "payouts_with_locked_stakes": x3pays, "dropped_validators": dropped, "validators_switched_off_by_their_owner": switchedOff, "validators_checked_after_mid_period_set_change": setChanges}})
+		Extra: map[string]interface{}{"accrual_blocks": accruals, "validator_payouts": payouts, "payouts_with_locked_stakes": x3pays, "dropped_validators": dropped, "validators_switched_off_by_their_owner": switchedOff, "whole_stake_unbonds_in_a_payout_block": fullUnbonds, "validators_checked_after_mid_period_set_change": setChanges}})
 }
